@@ -222,7 +222,7 @@ def rule_product_board(ctx, M, fn, pr, turn_f, river_f):
         ctx.ok(rule_b, {"board": "[b0,b1,b2,b3,b4]", "b3": "deck[turn]", "b4": "deck[river]", "combos": "pushed in player order"}, sample=True)
 
 
-def rule_odometer(ctx, M, fn, pr):
+def rule_odometer(ctx, M, fn, pr, store_fns=None):
     rule = "C02.R-odometer-bound"
     ctx.rule(rule, "a player's counter is advanced under `idx + 1 < len(entries of that player)`, by exactly 1, later counters reset to 0")
     counters = M.self_field(M.f_counters)
@@ -289,25 +289,27 @@ def rule_odometer(ctx, M, fn, pr):
                       f"player's last combo(s) are skipped or the list is overrun", fn=fn.path, file=fn.file,
                       line=fn.blocks[adv[0][0]]["line"], construct="odometer bound comparison")
         return
-    # increment by exactly 1 and reset to 0
+    # increment by exactly 1 and reset to 0 (in the comparison's function or a sibling method of the iterator)
     incs, resets, others = [], [], []
-    for l, lst in pr.stores.items():
-        for (sb, si, pl, rv) in lst:
-            base = pr.local(pl["l"])
-            if not (pl["proj"] == ["deref"] and is_counter_elem(("deref", base)) or
-                    (P.strip(base)[0] == "call" and P.strip(base)[1].endswith("::index_mut") and P.strip(P.strip(base)[2][0]) == counters)):
-                continue
-            v = pr.rvalue(rv) if "callterm" not in rv else None
-            if v and v[0] == "bin" and v[1] == "Add" and P.const_int(v[3]) is not None:
-                incs.append((sb, P.const_int(v[3])))
-            elif v and P.const_int(v) is not None:
-                resets.append((sb, P.const_int(v)))
-            else:
-                others.append((sb, v))
-    fills = [(bi, t) for bi, t in fn.calls() if t["callee"].get("name") == "fill" and bi in fn.cfg.reachable]
-    for bi, t in fills:
-        v = P.const_int(pr.operand(t["args"][1]))
-        resets.append((bi, v))
+    for sf in (store_fns or [fn]):
+        spr = pr if sf is fn else P.Prov(sf)
+        for l, lst in spr.stores.items():
+            for (sb, si, pl, rv) in lst:
+                base = spr.local(pl["l"])
+                if not (pl["proj"] == ["deref"] and is_counter_elem(("deref", base)) or
+                        (P.strip(base)[0] == "call" and P.strip(base)[1].endswith("::index_mut") and P.strip(P.strip(base)[2][0]) == counters)):
+                    continue
+                v = spr.rvalue(rv) if "callterm" not in rv else None
+                if v and v[0] == "bin" and v[1] == "Add" and P.const_int(v[3]) is not None:
+                    incs.append((sb, P.const_int(v[3])))
+                elif v and P.const_int(v) is not None:
+                    resets.append((sb, P.const_int(v), sf))
+                else:
+                    others.append((sb, v))
+        fills = [(bi, t) for bi, t in sf.calls() if t["callee"].get("name") == "fill" and bi in sf.cfg.reachable]
+        for bi, t in fills:
+            v = P.const_int(spr.operand(t["args"][1]))
+            resets.append((bi, v, sf))
     bad = [i for i in incs if i[1] != 1] + [r for r in resets if r[1] != 0]
     if not incs or bad or others:
         ctx.violation(rule, f"{fn.path}|counter-update",
@@ -366,7 +368,9 @@ def rule_odometer(ctx, M, fn, pr):
                 # the true edge can come back to the header inside the loop: no break
                 order_problems.append("the scan continues after finding a player with room (an earlier player would be advanced instead)")
     # resets cover exactly the later players: Range(chosen + 1, len)
-    reset_loops = [lp2 for lp2 in L.for_loops(fn, pr) if any(sb in lp2.body for (sb, v) in resets)]
+    reset_loops = []
+    for sf in {id(x[2]): x[2] for x in resets}.values():
+        reset_loops += [lp2 for lp2 in L.for_loops(sf, pr if sf is fn else P.Prov(sf)) if any(sb in lp2.body for (sb, v, f3) in resets if f3 is sf)]
     for lp2 in reset_loops:
         src2, chain2 = lp2.chain()
         s2 = P.strip(src2)
@@ -383,6 +387,21 @@ def rule_odometer(ctx, M, fn, pr):
         return
     ctx.ok(rule, {"bound": "idx + 1 < len", "increments": len(incs), "resets": len(resets), "scan": "last player first, stop at first hit",
                   "reset_range": "(advanced + 1)..len"}, sample=True)
+
+
+def rule_odometer_any(ctx, M, deal):
+    """the odometer may live in the deal function or in a helper taking `&mut self` that it (or next) calls"""
+    cands = [deal] + [M.F.fns[p] for p in sorted(M.cg.reach([M.next.path]))
+                      if p != deal.path and M.F.fns[p].arg_count >= 1 and M.F.fns[p].local_ty(1) in ("&mut " + M.iter_ty, "&" + M.iter_ty)]
+    last = None
+    for f_ in cands:
+        try:
+            return rule_odometer(ctx, M, f_, P.Prov(f_), store_fns=cands)
+        except Unrecognised as e:
+            last = e
+            if "no comparison of a player's counter" not in e.msg:
+                raise
+    raise last
 
 
 def rule_ctor(ctx, M):
@@ -509,7 +528,7 @@ def run(ctx):
     c08.rule_narrow(ctx, M, prop="C02")
     for f in (lambda: rule_used_set(ctx, M, fn, pr, turn_f, river_f),
               lambda: rule_product_board(ctx, M, fn, pr, turn_f, river_f),
-              lambda: rule_odometer(ctx, M, fn, pr),
+              lambda: rule_odometer_any(ctx, M, fn),
               lambda: rule_ctor(ctx, M)):
         try:
             f()
